@@ -315,8 +315,25 @@ class ccube:
                     print(func, ":=", regions)
 
         if self.parallel:
+            stopped = []
+
+            def fill_one_cube_in_pool(subcube_dims):
+                # The pool runs each chunk of tasks as list(map(func, chunk)),
+                # which takes a StopIteration for the end of the chunk and
+                # carries on. Keep such an interrupt and re-raise it below.
+                try:
+                    fill_one_cube(subcube_dims)
+                except StopIteration as exc:
+                    stopped.append(exc)
+                    raise RuntimeError("interrupted by %r" % (exc,))
+
             with closing(multiprocessing.pool.ThreadPool(self.poolsize)) as pool:
-                pool.map(fill_one_cube, self.product())
+                try:
+                    pool.map(fill_one_cube_in_pool, self.product())
+                except RuntimeError:
+                    if stopped:
+                        raise stopped[0]
+                    raise
         else:
             # The only reason to _not_ multithread this is the extra overhead;
             # for example, if there's only one region anyway, or there are a handful
